@@ -226,6 +226,21 @@ where
                     .get_unchecked_mut(self.location.identifier)
                     .pop_row_unchecked(self.location.index, &mut self.world.entity_allocator)
             };
+            // Find the removed component within the packed row. It is preceded by exactly the
+            // components identified by the bits below `component_index`.
+            let mut preceding_identifier_buffer = self.location.identifier.as_vec();
+            for (byte_index, byte) in preceding_identifier_buffer.iter_mut().enumerate() {
+                if byte_index > component_index / 8 {
+                    *byte = 0;
+                } else if byte_index == component_index / 8 {
+                    *byte &= (1 << (component_index % 8)) - 1;
+                }
+            }
+            let removed_component_offset =
+                // SAFETY: Since `preceding_identifier_buffer` was obtained from a valid identifier,
+                // it is of the proper length (which is `(R::LEN + 7) / 8`).
+                unsafe { archetype::Identifier::<Registry>::new(preceding_identifier_buffer) }
+                    .size_of_components();
             // Create new identifier buffer.
             let mut raw_identifier_buffer = self.location.identifier.as_vec();
             // Unset the component's bit.
@@ -272,6 +287,23 @@ where
                     .modify_location_unchecked(entity_identifier, location);
             }
             self.location = location;
+
+            // The removed component is still owned by the row buffer, which does not drop it. It
+            // is dropped last, so that the world is consistent when the component's `Drop`
+            // implementation runs.
+            drop(
+                // SAFETY: `current_component_bytes` holds a valid, properly initialized value of
+                // type `Component` at `removed_component_offset`, since the components within the
+                // buffer are packed in the same order as the registry. The value was skipped when
+                // the row was pushed to the new archetype, and is not read again.
+                unsafe {
+                    current_component_bytes
+                        .as_ptr()
+                        .add(removed_component_offset)
+                        .cast::<Component>()
+                        .read_unaligned()
+                },
+            );
         }
     }
 
